@@ -2,3 +2,19 @@
 Require Import Boario.Spec.StatementsEv Boario.Proofs.C08Proofs.
 Theorem C13_conversion_holds : C13_conversion. Proof. exact c13_conversion. Qed.
 Print Assumptions C13_conversion_holds.
+(* scale invariance of the phases (Spec/StatementsScale.v) *)
+Require Import Boario.Spec.StatementsScale Boario.Proofs.C13ScaleProofs.
+Theorem C13_scale_cap_holds : C13_scale_cap. Proof. exact c13_scale_cap. Qed.
+Print Assumptions C13_scale_cap_holds.
+Theorem C13_scale_opt_holds : C13_scale_opt. Proof. exact c13_scale_opt. Qed.
+Print Assumptions C13_scale_opt_holds.
+Theorem C13_scale_production_holds : C13_scale_production. Proof. exact c13_scale_production. Qed.
+Print Assumptions C13_scale_production_holds.
+Theorem C13_scale_deliver_holds : C13_scale_deliver. Proof. exact c13_scale_deliver. Qed.
+Print Assumptions C13_scale_deliver_holds.
+Theorem C13_scale_overprod_holds : C13_scale_overprod. Proof. exact c13_scale_overprod. Qed.
+Print Assumptions C13_scale_overprod_holds.
+Theorem C13_scale_stock_holds : C13_scale_stock. Proof. exact c13_scale_stock. Qed.
+Print Assumptions C13_scale_stock_holds.
+Theorem C13_scale_orders_holds : C13_scale_orders. Proof. exact c13_scale_orders. Qed.
+Print Assumptions C13_scale_orders_holds.
